@@ -3,7 +3,8 @@
    Rejection: apply_tx_batch returns [Reject e] without a state and the caller keeps the one it had
    (UnsealedState::apply_tx_batch only assigns *self on Ok); the harness checks on the real code that the
    coin root and the transaction set are unchanged after every rejected batch. *)
-From MelVerif Require Import STF.Model STF.Proofs.MapLemmas STF.Proofs.Faucet STF.Proofs.Coins.
+From MelVerif Require Import STF.Model STF.Proofs.MapLemmas STF.Proofs.Faucet STF.Proofs.Coins STF.Proofs.SealCoins STF.Proofs.HashFacts
+  STF.Proofs.SealCounts STF.Proofs.History STF.Proofs.CoinHistory.
 Open Scope N_scope.
 
 (* the coin set after an accepted batch: every binding the batch inserts (dedup markers, outputs not sent to
@@ -54,3 +55,30 @@ Example C02_output_coin_shape :
   output_coins 42 t =
     [(coin_key (t_hash t) 0, {| c_data := {| cd_covhash := 7; cd_value := 5; cd_denom := Custom (t_hash t); cd_extra := [1] |}; c_height := 42 |})].
 Proof. intros o d t E. unfold output_coins. rewrite E. reflexivity. Qed.
+
+(* ---- whole histories ([hstep], [hist_all]: Properties/C20.v).  "No lost coin": the coin c at id (h, i). *)
+Theorem C02_coin_step_assumptions_def : forall SO h i s o,
+  coin_step_ok SO h i s o <->
+  match o with
+  | HBatch lh txs => HashOK SO s txs /\ ~ In (coin_key h i) (all_inputs txs) /\
+      (forall t, In t txs -> so_faucet_marker SO (t_hash t) <> h)
+  | HBlock a hdr =>
+      (forall t, In t (sorted_txs s) -> is_pool_request t = true -> t_hash t <> h) /\
+      so_reward_id SO (s_height s) <> h
+  end.
+Proof. exact coin_step_ok_def. Qed.
+Print Assumptions C02_coin_step_assumptions_def.
+
+(* an unspent coin is in the coin tree, unchanged, after every history none of whose batches lists it as an input
+   and none of whose blocks settles a pool request of its creating transaction *)
+Theorem C02_unspent_coin_is_never_lost : forall SO h i, i < 256 -> forall c ops s,
+  s_coins s !! coin_key h i = Some c -> hist_all SO (coin_step_ok SO h i) s ops ->
+  s_coins (fold_left (hstep SO) ops s) !! coin_key h i = Some c.
+Proof. exact unspent_coin_is_never_lost. Qed.
+Print Assumptions C02_unspent_coin_is_never_lost.
+
+(* and an accepted batch that lists it removes it *)
+Theorem C02_spent_coin_is_gone : forall SO h i s lh txs s',
+  apply_tx_batch SO s lh txs = Ok s' -> In (coin_key h i) (all_inputs txs) -> s_coins s' !! coin_key h i = None.
+Proof. exact batch_spends_coin. Qed.
+Print Assumptions C02_spent_coin_is_gone.
